@@ -346,6 +346,15 @@ pub struct MfiOut {
     pub tainted: bool,
     pub max_flow_in_window: f64,
 }
+/// May the implementation have booked a money flow for the move a -> b? Only bit-identical (high, low, close)
+/// triples are certain to give it bit-identical typical prices, whatever order it sums them in; any other pair —
+/// also one whose exact typical prices are equal — may be a move for it, and the flow then passes through its
+/// running totals (and leaves its rounding residue there) although the reference sees a tie. The "largest
+/// single-bar flow since reset" of the MFI condition number therefore counts every such bar.
+pub fn may_flow(a: &RawBar, b: &RawBar) -> bool {
+    !(a.h.to_bits() == b.h.to_bits() && a.l.to_bits() == b.l.to_bits() && a.c.to_bits() == b.c.to_bits())
+}
+
 /// MoneyFlowIndex flows over the last min(t-1, n) typical-price moves of `bars` (t = bars.len() >= 2)
 pub fn mfi_ref(bars: &[RawBar], n: usize, sep: f64) -> MfiOut {
     mfi_ref_ex(bars, n, sep, true)
